@@ -26,7 +26,8 @@ Fixpoint find_pv (w : world) (name version : str) : option product :=
   | p :: w' => if str_eqb (p_name p) name && str_eqb (p_version p) version then Some p else find_pv w' name version
   end.
 
-Record config := { c_flavor : str; c_root : str; c_max_depth : option nat }.   (* None: max_depth = -1 *)
+Record config := { c_flavor : str; c_root : str; c_max_depth : option nat;   (* None: max_depth = -1 *)
+                   c_keep : bool }.                                          (* --keep *)
 
 Record state := { s_env : amap str; s_aliases : amap str }.
 
@@ -181,9 +182,10 @@ Definition setup_step (rec : setup_fn) (st : state) (ds : list decision)
         | Some p =>
             let sprod := find_setup_product w (s_env st) name in
             if same_product p sprod && negb (Nat.eqb depth 0) then RDone true st ds1 else
-            (* unsetupSetupProduct: unsetup whatever version is set up, at the same depth *)
+            (* unsetupSetupProduct: unsetup whatever version is set up, at the same depth; under --keep
+               without its dependencies *)
             let r0 := match sprod with
-                      | Some _ => rec st ds1 name false depth just
+                      | Some _ => rec st ds1 name false depth (just || c_keep cfg)
                       | None => RDone true st ds1
                       end in
             match r0 with
